@@ -360,9 +360,12 @@ def main():
     pid = args.prop
     t_start = time.time()
     prop = load_prop(pid)
-    workdir = os.path.join(BUILD, "run", pid)
+    # one work directory per invocation: several checks of the same property may run at the same time
+    workdir = os.path.join(BUILD, "run", "%s-%d" % (pid, os.getpid()))
     shutil.rmtree(workdir, ignore_errors=True)
     os.makedirs(workdir, exist_ok=True)
+    import atexit
+    atexit.register(lambda: shutil.rmtree(workdir, ignore_errors=True))
     os.makedirs(os.path.join(VERIF, "replays"), exist_ok=True)
     os.makedirs(os.path.join(VERIF, "evidence"), exist_ok=True)
 
